@@ -1570,7 +1570,7 @@ def probe_lit_coerce():
     return tuple(out)
 
 
-def lit_numbers(doc, rng):
+def lit_numbers(rng):
     """Concrete numbers for the abstract slots of one behaviour (both signs; 99 / 100 at the flyweight bound)."""
     s = rng.randint(2, 98)
     big = rng.choice([rng.randint(101, 9999), rng.randint(10**5, 2**31 - 2), 2**24 + 1])
@@ -1631,7 +1631,7 @@ def replay_literals(ctx, doc, seed, tamper=None):
     the previous entries are put back afterwards."""
     steps = doc["steps"]
     rng = random.Random(seed)
-    num, imv = lit_numbers(doc, rng)
+    num, imv = lit_numbers(rng)
     cache = getattr(UC.IntValue, "_cache", None)
     if not isinstance(cache, dict):
         raise MachineryError("IntValue._cache not found: the state of the flyweight cache cannot be set up")
@@ -1653,7 +1653,7 @@ def replay_literals(ctx, doc, seed, tamper=None):
 def _replay_literals(ctx, doc, seed, rng, num, imv, tamper):
     steps = doc["steps"]
     rp = {"kind": "literal", "seed": seed, "doc": doc}
-    O, ref, args, calls = [], [], [], []
+    O, ref, calls = [], [], []
     checks = 0
     nontrivial = False
     for i, st in enumerate(steps):
@@ -1672,7 +1672,6 @@ def _replay_literals(ctx, doc, seed, rng, num, imv, tamper):
         ox = observe(x)
         O.append(x)
         ref.append(ox)
-        args.append(arg)
         calls.append(call)
         cls = st["cls"]
         if type(x).__name__ != cls:
@@ -1770,11 +1769,11 @@ def lit_plans(ctx):
     inv = ["LitLaws", "LitExport"]
     P = [("pairs-same-number", dict(lit=(2, True, LIT_CLASSES), invs=inv, props=["LitStable"], workers=4), None),
          # (the simulator evaluates the invariants on every candidate successor: ~110 per step)
-         ("random", dict(lit=(8, False, LIT_CLASSES), invs=inv, workers=1, simulate="num=6" if ctx.tier == "quick" else "num=60",
-                         depth=9, seed=ctx.seed + 5), 48 if ctx.tier == "quick" else 600)]
+         ("random", dict(lit=(8, False, LIT_CLASSES), invs=inv, workers=1, simulate="num=6" if ctx.tier == "quick" else "num=30",
+                         depth=9, seed=ctx.seed + 5), 48 if ctx.tier == "quick" else 400)]
     if ctx.tier != "quick":
-        P.append(("pairs", dict(lit=(2, False, LIT_CLASSES), invs=inv, props=["LitStable"], workers=8), None))
-        P.append(("triples-same-number", dict(lit=(3, True, LIT_CLASSES), invs=inv, props=["LitStable"], workers=8), None))
+        P.append(("pairs", dict(lit=(2, False, LIT_CLASSES), invs=inv, props=["LitStable"], workers=4), None))
+        P.append(("triples-same-number", dict(lit=(3, True, LIT_CLASSES), invs=inv, props=["LitStable"], workers=4), None))
     return P
 
 
